@@ -1612,7 +1612,10 @@ struct Fill
                 {
                     Result q = ad.apply(mk1(OpK::Find, N));
                     if (q.v[0])
+                    {
                         mbad(4, "the last written key is served at its deadline (" + std::to_string(N) + " entries expired together)");
+                        mbad(1, "the last written key is reported with a value at its deadline, i.e. after expiry undid the write (" + std::to_string(N) + " entries expired together)");
+                    }
                     if (ad.observe().size != 0)
                         mbad(2, "size() is " + std::to_string(ad.observe().size) + " right after a lookup although every entry has expired");
                     Result c = ap(ad, simple(OpK::Clean));
@@ -1632,10 +1635,16 @@ struct Fill
                 ap(ad, adv(deadline - g_now_ns));
                 Result q = ap(ad, spanop(OpK::FindRange, N, 0));
                 if (q.v[1] != 0)
+                {
                     mbad(4, "find_range at the common deadline still returns " + std::to_string(q.v[1]) + " of " + std::to_string(N) + " keys");
+                    mbad(1, "find_range reports values for " + std::to_string(q.v[1]) + " of " + std::to_string(N) + " keys whose writes were undone by expiry");
+                }
                 int f = count_found(ad, N, false, 0, 1);
                 if (f != 0)
+                {
                     mbad(4, std::to_string(f) + " keys are served at their deadline");
+                    mbad(1, std::to_string(f) + " keys are reported with a value although expiry undid their writes");
+                }
             }
             else if (id == 3 && T.ttl_map)
             {
